@@ -40,7 +40,11 @@ def rebuild(model, history):
     return fam
 
 
-def bfs(model, depth, max_violations=12):
+def bfs(model, depth, max_violations=12, first=None, release_every=400):
+    """`first` = index of the only operation explored from the empty history (a thorough unit is split into one
+    search per first operation; deeper levels are explored in full, so the union over `first` covers every history
+    of the unsplit search - states reached under another first operation are explored again, never skipped)."""
+    from vmc import core
     r = BFSResult()
     fam0 = model.initial()
     k0 = model.canon(fam0)
@@ -53,7 +57,12 @@ def bfs(model, depth, max_violations=12):
             break
         h = frontier.popleft()
         r.max_depth = max(r.max_depth, len(h))
-        for op in model.enabled(h):
+        ops = model.enabled(h)
+        if first is not None and not h:
+            ops = ops[first:first + 1]
+        for op in ops:
+            if r.transitions % release_every == release_every - 1:
+                core.release_caches()   # the library's lru_caches pin every class ever compiled
             fam = rebuild(model, h)
             try:
                 got = model.apply(fam, op)
